@@ -9,7 +9,7 @@ applies the appends.  Invariant of the mutation loop: the remaining mutations ca
 current leaf list and the running peaks are the from-scratch peaks of the current leaf list.
 -/
 namespace TF.MmrAccVerify
-open TF TF.Gen TF.Model.Mmr TF.Model.MmrAcc TF.MmrE TF.Spec.MmrE TF.MmrAccBatch
+open TF TF.Gen TF.Model.Mmr TF.Model.MmrAcc TF.MmrE TF.MmrBM TF.Spec.MmrE TF.MmrAccBatch
 
 section V
 variable {D : Type} (H : D → D → D)
